@@ -71,7 +71,7 @@ def _rule_d2(text, log):
     plain `if DEBUG {..}` without else), and `else { if DEBUG {...} }` blocks that become empty."""
     m = rs.mask(text)
     ranges = []
-    for mm in re.finditer(r'\b(println|print|eprintln|dbg)!\s*\(', m):
+    for mm in re.finditer(r'\b(println|print|eprintln|dbg|debug)!\s*\(', m):
         close = rs.match_brace(m, mm.end() - 1)
         j = close + 1
         while j < len(m) and m[j] in ' \t':
@@ -163,6 +163,45 @@ def _rule_r21(text, log):
     if n:
         log.append(('R21', n))
     return ''.join(pieces)
+
+
+def _rule_r23(text, log):
+    """`while let PAT = EXPR { BODY }`  ->  `loop { match EXPR { PAT => { BODY } _ => { break; } } }`
+    (Verus does not hand the failed match to the code after a `while let`; a `loop` with `ensures` does)."""
+    n = 0
+    while True:
+        m = rs.mask(text)
+        mm = re.search(r'\bwhile\s+let\s+', m)
+        if not mm:
+            break
+        # pattern up to the top-level '=' ; expression up to the top-level '{'
+        i = mm.end()
+        depth = 0
+        eq = -1
+        while i < len(m):
+            c = m[i]
+            if c in '([{':
+                if c == '{' and depth == 0 and eq >= 0:
+                    break
+                depth += 1
+            elif c in ')]}':
+                depth -= 1
+            elif c == '=' and depth == 0 and eq < 0 and m[i + 1] != '=' and m[i - 1] not in '=!<>':
+                eq = i
+            i += 1
+        if eq < 0 or i >= len(m):
+            raise Unsupported('R23: while let shape not recognised')
+        ob = i
+        cb = rs.match_brace(m, ob)
+        pat = text[mm.end():eq].strip()
+        expr = text[eq + 1:ob].strip()
+        body = text[ob + 1:cb]
+        rep = 'loop { match %s { %s => {%s} _ => { break; } } }' % (expr, pat, body)
+        text = text[:mm.start()] + rep + text[cb + 1:]
+        n += 1
+    if n:
+        log.append(('R23', n))
+    return text
 
 
 _UNARY_PREV = set('(,=[{;<>+-*/%!&|:?')
@@ -382,6 +421,33 @@ def _rule_r6(text, log):
                '                __r6_i += 1;\n'
                '            }\n'
                '            __r6_out })') % (E, x, E, pred, x)
+        out = out[:mm.start()] + rep + out[close + 1 + tail.end():]
+        n += 1
+    # (n) A.iter().zip(B).map(|(a, b)| BODY).collect::<Vec<_>>()  (B a slice / &Vec: zip stops at the shorter one)
+    while True:
+        m = rs.mask(out)
+        mm = re.search(r'([A-Za-z_][A-Za-z0-9_]*)\s*\.iter\(\)\s*\.zip\(\s*([A-Za-z_][A-Za-z0-9_]*)\s*\)\s*\.map\(', m)
+        if not mm:
+            break
+        op = mm.end() - 1
+        close = rs.match_brace(m, op)
+        tail = re.match(r'\s*\.collect(::<Vec<_>>)?\(\)', m[close + 1:])
+        if not tail:
+            raise Unsupported('R6n: map not followed by .collect()')
+        inner = out[op + 1:close]
+        cm = re.match(r'\s*\|\s*\(\s*([a-z_][a-z0-9_]*)\s*,\s*([a-z_][a-z0-9_]*)\s*\)\s*\|\s*', inner)
+        if not cm:
+            raise Unsupported('R6n: closure not recognised')
+        a, b, body = cm.group(1), cm.group(2), inner[cm.end():].strip()
+        A, B = mm.group(1), mm.group(2)
+        rep = ('({ let mut __r6_out = Vec::new(); let mut __r6_i: usize = 0;\n'
+               '        while __r6_i < %s.len() && __r6_i < %s.len() {\n'
+               '            let %s = &%s[__r6_i]; let %s = &%s[__r6_i];\n'
+               '            let __r6_t = %s;\n'
+               '            __r6_out.push(__r6_t);\n'
+               '            __r6_i += 1;\n'
+               '        }\n'
+               '        __r6_out })') % (A, B, a, A, b, B, body)
         out = out[:mm.start()] + rep + out[close + 1 + tail.end():]
         n += 1
     # (d)
@@ -666,6 +732,8 @@ def apply_rewrites(text, log, rules, keep_eq=False):
         text = _rule_r18(text, log)
     if 'R20' in rules:
         text = _rule_r20(text, log)
+    if 'R23' in rules:
+        text = _rule_r23(text, log)
     if 'R21' in rules:
         text = _rule_r21(text, log)
     if 'R22' in rules:
@@ -732,6 +800,10 @@ def apply_rewrites(text, log, rules, keep_eq=False):
         text = _rule_r12(text, log)
     if 'R8' in rules:
         text = _rule_r8(text, log)
+    return _apply_subst(text, log, rules)
+
+
+def _apply_subst(text, log, rules):
     for r in rules:
         if r.startswith('SW:'):
             # like S, but whitespace-insensitive: the pattern may span lines in the source
@@ -971,7 +1043,14 @@ def splice_fn(item_text, ann, log):
     rn = ann.get('ret')
     if rn:
         mp = rs.mask(prefix)
-        idx = mp.rfind('->')
+        # the arrow that follows the parameter list (a `where` clause may contain closure arrows)
+        fm = re.search(r'\bfn\s+[A-Za-z_][A-Za-z0-9_]*\s*(<[^()]*>)?\s*\(', mp)
+        idx = -1
+        if fm:
+            pc = rs.match_brace(mp, fm.end() - 1)
+            am = re.match(r'\s*->', mp[pc + 1:])
+            if am:
+                idx = pc + 1 + am.end() - 2
         if idx < 0:
             raise LostAnchor('function has no return type to name')
         ty = prefix[idx + 2:].strip()
@@ -1200,6 +1279,7 @@ def generate(unit_path, repo=REPO):
                     # discharged elsewhere (engine B harness named in the unit) or listed as trusted
                     txt = _strip_docs_attrs(raw, log)
                     prefix, body, rest = rs.fn_parts(txt)
+                    prefix = _apply_subst(prefix, log, header['rules'])   # type substitutions in the signature
                     ann2 = dict(ann)
                     text = splice_fn(prefix + '{ unimplemented!() }' + rest, dict(spec=ann.get('spec', ''), ret=ann.get('ret'), attr=['#[verifier::external_body]'] + ann.get('attr', []), noaxioms=True), log)
                     log.append(('CONTRACT-ONLY', 1))
